@@ -3,12 +3,16 @@ package querylog
 // Replay drivers for govc counter-models (injected with go test -overlay; not part of the repository).
 
 import (
+	"context"
 	"encoding/json"
 	"fmt"
 	"net"
 	"os"
 	"strconv"
 	"testing"
+
+	"github.com/AdguardTeam/golibs/logutil/slogutil"
+	"github.com/AdguardTeam/golibs/timeutil"
 )
 
 type govcReplay struct {
@@ -81,4 +85,39 @@ func TestGovcReplayAnonymizeIP(t *testing.T) {
 		return
 	}
 	fmt.Println("GOVC-NOT-REPRODUCED")
+}
+
+// TestGovcReplaySearch replays a counter-model of (*queryLog).search: the model's limit/offset are passed to the real
+// search on a small real query log; the no-crash part of the property is violated if search panics.
+func TestGovcReplaySearch(t *testing.T) {
+	r := govcLoad(t)
+	limit := govcInt(r, "params.limit", 0)
+	offset := govcInt(r, "params.offset", 0)
+	l, err := newQueryLog(Config{
+		Logger:      slogutil.NewDiscardLogger(),
+		Enabled:     true,
+		RotationIvl: timeutil.Day,
+		MemSize:     100,
+		BaseDir:     t.TempDir(),
+	})
+	if err != nil {
+		t.Fatal(err)
+	}
+	p := newSearchParams()
+	p.limit, p.offset = limit, offset
+	func() {
+		defer func() {
+			if rec := recover(); rec != nil {
+				fmt.Printf("GOVC-REPRODUCED: search(limit=%d, offset=%d) panics: %v\n", limit, offset, rec)
+			}
+		}()
+		l.confMu.RLock()
+		defer l.confMu.RUnlock()
+		entries, _ := l.search(context.Background(), p)
+		if limit >= 0 && offset >= 0 && len(entries) > limit {
+			fmt.Printf("GOVC-REPRODUCED: search(limit=%d, offset=%d) returned %d entries\n", limit, offset, len(entries))
+			return
+		}
+		fmt.Println("GOVC-NOT-REPRODUCED")
+	}()
 }
